@@ -48,6 +48,7 @@ type Config struct {
 	Strict   bool
 	SlowCB   time.Duration // lifecycle callbacks sleep this long (virtual)
 	V6       bool          // server listens on an IPv6 address
+	NoAuth   bool          // no AuthHandler configured (STUN-only server)
 	Name     string
 }
 
@@ -281,6 +282,9 @@ func NewWorld(cfg Config, clients, peers []string) (*World, error) {
 		},
 		EventHandler: w.eventHandler(),
 		QuotaHandler: func(string, string, net.Addr) bool { return !w.QuotaDeny },
+	}
+	if cfg.NoAuth {
+		sc.AuthHandler = nil
 	}
 	var ph turn.PermissionHandler
 	switch cfg.Policy {
